@@ -80,7 +80,21 @@ theorem ginv_sendStepP {s s' : Sess} (h : GInv s) (hs : sendStepP s = some s') :
     have hl := g1 (Or.inr ⟨x, hpc⟩)
     split at hs
     · cases hs
-      exact ginv_left ⟨g1, g2⟩ rfl rfl (by intro l; rcases l with l | ⟨x, l⟩ <;> simp at l)
+      -- a failing write hands over at most a prefix of the item that was next anyway
+      simp only [inflight, hpc] at hl
+      constructor
+      · intro l; rcases l with l | ⟨y, l⟩ <;> simp at l
+      · simp only
+        rw [← hl]
+        have hp : partialWrite s x <+: x := by
+          unfold partialWrite; split
+          · exact List.take_prefix _ _
+          · exact List.nil_prefix
+        obtain ⟨t, ht⟩ := hp
+        refine ⟨t ++ s.q.flatten, ?_⟩
+        have e : s.delivered ++ partialWrite s x ++ (t ++ s.q.flatten) = s.delivered ++ (partialWrite s x ++ t) ++ s.q.flatten := by
+          simp [List.append_assoc]
+        rw [e, ht]
     · split at hs
       · cases hs
         simp only [inflight, hpc] at hl
@@ -148,6 +162,7 @@ theorem fok_env {s : Sess} (h : FOk s) (e : Env) : FOk (envStep s e) := by
   case readFail => split <;> (intro hf; simp at hf)
   case handlerPanic => split <;> (intro hf; simp at hf)
   case writeFail => intro hf; simp at hf
+  case writeFailAfter n => split <;> (intro hf; simp at hf)
 
 theorem taken_of_closes {s : Sess} (hS : SInv s) (h : s.closes ≠ 0) : s.onceTaken = true :=
   (hS.fin (once_of_closes hS h)).1
